@@ -65,24 +65,21 @@ func CheckCLI(prop string, c *Case, proc ProcessFunc, cov *Cov) []*Violation {
 	sr := iosim.NewSimReader(b, c.Sched.FitTo(len(b)), clk)
 	w := iosim.NewSimWriter(clk)
 	if prop == "C11" {
-		nextJunk, wpos := 0, 0
 		sr.OnBlock = func(r *iosim.SimReader) {
 			del := r.Delivered()
 			if cov != nil {
 				cov.Probe("cli-block-points")
 			}
-			held := heldAt(s, del)
-			for nextJunk < len(s.Lines) && s.Lines[nextJunk].End <= del {
-				l := s.Lines[nextJunk]
-				if l.Class == gen.Junk && !l.Blank && l.Term && !held[nextJunk] {
-					i := bytes.Index(w.Buf[wpos:], b[l.Start:l.End])
-					if i < 0 {
-						add("withheld-line", "", fmt.Sprintf("stdin blocks after %d bytes; the complete pass-through line %s was delivered but is not yet in the output (%d bytes written so far)", del, Clip(b[l.Start:l.End], 80), len(w.Buf)))
-						return
-					}
-					wpos += i + (l.End - l.Start)
+			exp, missing := expectedSoFar(s, del, rend)
+			if !bytes.HasPrefix(w.Buf, exp) {
+				d := FirstDiff(w.Buf, exp)
+				li := missing(d)
+				what := "the complete pass-through line " + Clip(s.Text(li), 80)
+				if s.Lines[li].Class == gen.Dump {
+					what = "the rendering of the dump starting at line " + fmt.Sprint(li)
 				}
-				nextJunk++
+				add("withheld-line", "", fmt.Sprintf("stdin blocks after %d bytes; %s was due but is not yet in the output (%d bytes written so far, %d expected)", del, what, len(w.Buf), len(exp)))
+				return
 			}
 			pos := 0
 			for i := range s.Dumps {
